@@ -96,7 +96,11 @@ def build_font(mspec, module, order_key=None):
         font.lib[k] = _copy(mspec["lib"][k])
     if mspec.get("features"):
         font.features.text = mspec["features"]
-    for path, text in mspec.get("data", {}).items():
+    data = mspec.get("data", {})
+    order = [p for p in mspec.get("data_order", []) if p in data]
+    order += sorted(p for p in data if p not in order)
+    for path in order:
+        text = data[path]
         font.data[path] = text.encode("utf-8") if isinstance(text, str) else bytes(text)
     if "public.glyphOrder" not in mspec.get("lib", {}) and "public.glyphOrder" in font.lib:
         # defcon maintains public.glyphOrder automatically while glyphs are added;
